@@ -9,4 +9,7 @@ open Comrak.C03
 #print axioms refHtml_eq_renderHtml_canon
 #print axioms shape_canon
 #print axioms toTreeP_erase_canon
+#print axioms positions_canon_partial
+#print axioms write_lines_clean_canon
+#print axioms positions_canon
 #print axioms math_info_counterexample
